@@ -201,3 +201,87 @@ class AbstractProblem:
             if vec_syntactic_equal(r.s, u):
                 return r
         return None
+
+
+class VecP:
+    """ghost particle data (positions/velocities as Vec, masses/charges opaque): twin of datatype_classes.particles"""
+
+    components = ('pos', 'vel')
+    __array_ufunc__ = None
+
+    def __init__(self, init=None, val=None, vals=None):
+        if isinstance(init, VecP):
+            self.pos, self.vel = Vec(init.pos), Vec(init.vel)
+            self.m, self.q = init.m, init.q
+        else:
+            self.pos, self.vel = Vec(None, val), Vec(None, val)
+            self.m = self.q = None
+
+    def total(self):
+        raise TypeError('particles have no total()')
+
+    def _map2(self, o, f):
+        r = VecP(self)
+        r.pos = f(self.pos, o.pos if isinstance(o, VecP) else o)
+        r.vel = f(self.vel, o.vel if isinstance(o, VecP) else o)
+        return r
+
+    def __add__(self, o):
+        return self._map2(o, lambda a, b: a + b)
+
+    def __sub__(self, o):
+        return self._map2(o, lambda a, b: a - b)
+
+    def __mul__(self, o):
+        return self._map2(o, lambda a, b: a * b)
+
+    __rmul__ = __mul__
+
+    def __iadd__(self, o):
+        self.pos += o.pos
+        self.vel += o.vel
+        return self
+
+    def __isub__(self, o):
+        self.pos -= o.pos
+        self.vel -= o.vel
+        return self
+
+    def __abs__(self):
+        return abs(self.pos) + abs(self.vel)
+
+    def __repr__(self):
+        return f'VecP(pos={self.pos}, vel={self.vel})'
+
+
+def data_syntactic_equal(a, b):
+    if isinstance(a, Vec) and isinstance(b, Vec):
+        return vec_syntactic_equal(a, b)
+    if hasattr(a, 'components') and type(a) is type(b):
+        return all(vec_syntactic_equal(getattr(a, c), getattr(b, c)) for c in a.components)
+    return False
+
+
+class ParticleProblem(AbstractProblem):
+    """second-order problem contract: eval_f(u, t) is an uninterpreted map of (u.pos, u.vel, t) returning an acceleration"""
+
+    def __init__(self, kind='particles', name='P', **kw):
+        super().__init__(kind='full', name=name)
+        self.kind = 'particles'
+        self.dtype_u = VecP
+        self.dtype_f = Vec
+
+    def eval_f(self, u, t, *a, **k):
+        for r in self.evals:
+            if data_syntactic_equal(r.u, u) and _same_scalar(r.t, t):
+                return Vec(r.f)
+        kk = len(self.evals)
+        f = Vec.atom(f'{self.name}.A{kk}', kind='f')
+        self.evals.append(Rec(f=Vec(f), u=VecP(u), t=t, k=kk))
+        return f
+
+    def find_eval(self, f):
+        for r in self.evals:
+            if vec_syntactic_equal(r.f, f):
+                return r
+        return None
